@@ -79,6 +79,7 @@ def gen_cases(tier, seed):
     n_rand = 160 if not full else 2400
     for i in range(n_rand):
         cases.append({"kind": "random", "sub": int(rng.integers(1 << 31)), "cost": 0.2})
+    cases.append({"kind": "repo-tests", "files": ["tests/test_intervals.py"], "cost": 10})
     return cases
 
 
@@ -124,6 +125,14 @@ def _nontrivial(data, w):
 
 def run_case(case, ctx):
     n_eval = n_nontriv = 0
+    if case["kind"] == "repo-tests":
+        from .. import repotests
+
+        ctx.cls("slicer", "repository-tests")
+        repotests.run(ctx, case["files"])
+        ctx.notes["n_eval"] = sum(v for k, v in ctx.counts.items() if k.startswith("slice.calls["))
+        ctx.notes["n_nontrivial"] = 0
+        return
     if case["kind"] == "lattice":
         w, L, cfg = case["w"], case["L"], case["cfg"]
         ctx.cls("slicer", cfg["slicer"])
